@@ -77,8 +77,11 @@ static inline int remove_node(m_bst_t *l, bst_node **elem) {
          * (smallest in the right subtree)
          */
         bst_node **tmp = find_min_subtree(&node->right);
-        node->userptr = (*tmp)->userptr; // switch userdata
-        return remove_node(l, tmp); // remove useless left-most node in the right subtree
+        /* swap userdata, so that the element being removed is the one that gets destroyed */
+        void *removed = node->userptr;
+        node->userptr = (*tmp)->userptr;
+        (*tmp)->userptr = removed;
+        return remove_node(l, tmp); // remove left-most node in the right subtree, now holding removed element
     }
     return -ENOENT;
 }
